@@ -79,7 +79,7 @@ C01|C02)
   bridge
   EXTRA_ARGS="-prop $ID -bin $W/goose -bridge $W/gooseb"
   ;;
-C04)
+C04|C08)
   build "$W/bin" ./cmd/$LC || exit 3
   (cd $REPO && go build -o "$W/goose" ./cmd/goose) || { echo "harness error: goose does not build" >&2; exit 3; }
   EXTRA_ARGS="-bin $W/goose"
